@@ -13,7 +13,7 @@
     non-negative refund counter; [msg_basic_ok] = MsgEthereumTx.ValidateBasic.
     Amounts of Dec type are raw integers (value x 10^18 = [dl_one]). *)
 From Coq Require Import ZArith NArith List.
-From HV Require Import Fees.DecLite Fees.FeeModel Fees.FeeProofs.
+From HV Require Import Fees.DecLite Fees.FeeModel Fees.FeeProofs Fees.FeeSigners.
 Import ListNotations.
 Local Open Scope Z_scope.
 
@@ -256,3 +256,130 @@ Theorem C07_nonvacuous_rejections :
   deliver_cosmos (mkparams 1500000000000000000 1 0 5) (10 ^ 20) 300000 [(0%N, 449999)] None 5 = Rejected EFee.
 Proof. exact (conj ex_below_floor_rejected (conj ex_cap_below_base_rejected ex_cosmos_below_floor_rejected)). Qed.
 Print Assumptions C07_nonvacuous_rejections.
+
+(** ---- several signers in one transaction ---- *)
+
+(** Model: [deliver_eth_s] (Fees/FeeModel.v) - a Cosmos transaction wrapping
+    Ethereum messages of different signers; balances are a function of the signer;
+    EthGasConsumeDecorator deducts gasLimit x effective price of a message from the
+    signer of that message, RefundGas returns the leftover to the same signer.
+
+    For ALL lists of messages and ALL assignments of signers to them, every
+    execution outcome: an executed transaction leaves every message with the gas
+    used of the property ([msgs_spec]); EVERY signer's balance decreases by exactly
+    the sum of gasUsed x effective price over the messages it signed
+    ([charges_of]); the fee collector gains exactly the sum over all messages. *)
+Theorem C07_signer_net_eq_own_charges :
+  forall p b coll sms evs b2 c2 l,
+    params_ok p -> evs_sane (map snd sms) evs ->
+    deliver_eth_s p b coll sms evs = ExecutedS b2 c2 l ->
+    msgs_spec p (map snd sms) evs l /\
+    (forall s, b s - b2 s = charges_of s (p_base p) sms l) /\
+    c2 - coll = charges (p_base p) (map snd sms) l /\
+    length l = length sms.
+Proof. exact signer_net_eq_own_charges. Qed.
+Print Assumptions C07_signer_net_eq_own_charges.
+
+(** ... where a signer's charge depends on nothing but its own (message, gas
+    used) pairs: the other signers' messages do not enter, *)
+Theorem C07_signer_charge_only_own_messages :
+  forall s base sms l,
+    charges_of s base sms l =
+    zsum (map (fun x => fst (snd x) * eff_price base (fst x)) (own_part s (combine sms l))).
+Proof. exact charges_of_own_part. Qed.
+Print Assumptions C07_signer_charge_only_own_messages.
+
+(** an account that signed none of the messages pays nothing, *)
+Theorem C07_signer_without_message_pays_nothing :
+  forall s base sms l,
+    (forall sm, In sm sms -> fst sm <> s) -> charges_of s base sms l = 0.
+Proof. exact charges_of_no_message. Qed.
+Print Assumptions C07_signer_without_message_pays_nothing.
+
+(** the order of the messages does not matter, *)
+Theorem C07_signer_charge_order_independent :
+  forall s base sms l sms' l',
+    Permutation.Permutation (combine sms l) (combine sms' l') ->
+    charges_of s base sms l = charges_of s base sms' l'.
+Proof. exact charges_of_perm. Qed.
+Print Assumptions C07_signer_charge_order_independent.
+
+(** and the signers' charges add up to what the collector receives (over any
+    duplicate-free list of accounts containing all signers). *)
+Theorem C07_signer_charges_sum_to_collector :
+  forall base ss, NoDup ss -> forall sms l,
+    (forall sm, In sm sms -> In (fst sm) ss) ->
+    zsum (map (fun s => charges_of s base sms l) ss) = charges base (map snd sms) l.
+Proof. exact charges_of_total. Qed.
+Print Assumptions C07_signer_charges_sum_to_collector.
+
+(** ante passed, a message returned an error: every signer stays charged
+    gasLimit x effective price of its own messages, the collector holds the total *)
+Theorem C07_signer_hard_error_charges_own_limit :
+  forall p b coll sms evs b1 c1 g,
+    deliver_eth_s p b coll sms evs = FailedS b1 c1 g ->
+    (forall s, b s - b1 s = upfront_of s (p_base p) sms) /\
+    c1 - coll = upfront (p_base p) (map snd sms) /\
+    g = zsum (map m_gas (map snd sms)).
+Proof. exact signer_hard_error_charges_own_limit. Qed.
+Print Assumptions C07_signer_hard_error_charges_own_limit.
+
+(** one account signs every message ([all_signed_by s]): the signer model and the
+    single-sender model of the theorems further up give the same verdict, the same
+    per-message results, the same payment of that account and the same collector gain *)
+Theorem C07_single_signer_models_agree :
+  forall p s b coll sms evs,
+    all_signed_by s sms ->
+    match deliver_eth_s p b coll sms evs, deliver_eth p (b s) coll (map snd sms) evs with
+    | RejectedS c, Rejected c' => c = c'
+    | FailedS b1 c1 g, Failed d g' => g = g' /\ c1 - coll = d /\ b s - b1 s = d
+    | ExecutedS b2 c2 l, Executed d l' =>
+        l = l' /\ c2 - coll = d - zsum (map snd l) /\ b s - b2 s = d - zsum (map snd l)
+    | _, _ => False
+    end.
+Proof. exact single_signer_agrees. Qed.
+Print Assumptions C07_single_signer_models_agree.
+
+(** non-vacuity: [ex_aba] = [A; B; A] (A: legacy and access-list message, B: the
+    dynamic-fee one) executed, all hypotheses met; observed: nets of A, B, C (C pays
+    nothing), collector gain, gas used per message *)
+Theorem C07_nonvacuous_signers_executed :
+  evs_sane (map snd ex_aba) ex_aba_evs /\
+  observe_s ex_params 3 ex_bals 0 ex_aba ex_aba_evs
+  = mkobs OK OK 0 183000 110600 [50000 * 3 + 23000 * 2; 37600 * 3; 0] (50000 * 3 + 37600 * 3 + 23000 * 2) [50000; 37600; 23000].
+Proof. exact ex_signers_executed. Qed.
+Print Assumptions C07_nonvacuous_signers_executed.
+
+(** the variant that accumulates the verified fees of consecutive messages of one
+    signer, deducts the running amount when the payer changes and once after the
+    last message, and never clears it ([deliver_eth_acc]) violates the statement
+    on [A; B]: B pays its own gas plus A's whole up-front fee (gasLimit 100000 x
+    price 3) and the collector keeps that surplus, while [deliver_eth_s] (the
+    code) charges B its own gas only *)
+Theorem C07_accumulating_deduction_refuted :
+  let sms := [(0%N, ex_legacy); (1%N, ex_dynamic)] in
+  let evs := [Ran 30000 4800 false; Ran 47000 19200 false] in
+  match deliver_eth_acc ex_params ex_bals 0 sms evs, deliver_eth_s ex_params ex_bals 0 sms evs with
+  | ExecutedS b2 c2 l, ExecutedS b2' c2' l' =>
+      l = l' /\ l = [(50000, 150000); (37600, 67200)] /\
+      ex_bals 0%N - b2 0%N = charges_of 0%N 2 sms l /\
+      ex_bals 1%N - b2 1%N = charges_of 1%N 2 sms l + 100000 * 3 /\
+      ex_bals 1%N - b2 1%N <> charges_of 1%N 2 sms l /\
+      c2 = charges 2 (map snd sms) l + 100000 * 3 /\
+      ex_bals 1%N - b2' 1%N = charges_of 1%N 2 sms l /\
+      c2' = charges 2 (map snd sms) l
+  | _, _ => False
+  end.
+Proof. exact accumulating_deduction_refuted. Qed.
+Print Assumptions C07_accumulating_deduction_refuted.
+
+(** ... and is indistinguishable from the code when one account signs every message *)
+Theorem C07_accumulating_deduction_single_signer_agrees :
+  let sms := [(0%N, ex_legacy); (0%N, ex_dynamic); (0%N, ex_access)] in
+  let evs := [Ran 30000 4800 false; Ran 47000 19200 false; Ran 23000 0 true] in
+  match deliver_eth_acc ex_params ex_bals 0 sms evs, deliver_eth_s ex_params ex_bals 0 sms evs with
+  | ExecutedS b2 c2 l, ExecutedS b2' c2' l' => l = l' /\ b2 0%N = b2' 0%N /\ c2 = c2'
+  | _, _ => False
+  end.
+Proof. exact accumulating_deduction_single_signer_agrees. Qed.
+Print Assumptions C07_accumulating_deduction_single_signer_agrees.
